@@ -93,8 +93,12 @@ def genConcatCase : G (List String) := do
   let pics ← (List.range n).mapM fun k => do
     let c ← below 5
     genPic cfg (if k = 0 then 0 else if c = 0 then 0 else if c = 1 ∧ cfg.flavour < 2 then 2 else 1) dims (tr + k) true
-  -- only complete pictures: every macroblock present
-  let pics := pics.map fun p => p
+  -- complete pictures (every macroblock present), except that in standard mode a predicted picture may stop early: the next
+  -- picture's start code (a GOB number of zero) ends it, the missing macroblocks are not coded
+  let pics ← pics.mapM fun p => do
+    let short ← coin 1 3
+    let keep ← below (max 1 p.mbs.length)
+    pure (if cfg.flavour ≥ 2 ∧ short ∧ !p.hdr.intra then { p with mbs := p.mbs.take keep } else p)
   let all := String.join (pics.map fun p => (hexOf p))
   let o := optsOf cfg false
   pure [s!"P {o} a:{all};" ++ ";".intercalate (pics.map fun _ => "n"),
@@ -232,6 +236,31 @@ def edgeConcatCases (count : Nat) : G (List String) := do
     let big : PicD := { hdr := .sorenson hdr, mbs := List.replicate total mb }
     let small ← genPic { flavour := 1 } 0 (16, 16) 9 true
     out := s!"P 1 r:{hexOf big};r:{hexOf small}" :: s!"P 1 a:{hexOf big}{hexOf small};n;n" :: out
+  pure out.reverse
+
+/-- two pictures in one source, the second one 0..7 zero bits behind the first (so that its start code is byte aligned or not),
+delivered in two pieces cut at every byte around the junction: the first call must decode the first picture whatever part of
+the second one has arrived, and a call that fails for lack of data must leave everything as it was -/
+def junctionCases (count : Nat) : G (List String) := do
+  let mut out : List String := []
+  for n in [0:count] do
+    let fl ← pick [1, 2, 3, 2, 3]
+    let dims := if fl = 2 then (128, 96) else (32, 16)
+    let tr ← below 200
+    let i ← genPic { flavour := fl } 0 dims tr true
+    let p ← genPic { flavour := fl } 1 dims (tr + 1) true
+    let p : PicD := match p.hdr with
+      | .plus hh => { p with hdr := .plus { hh with ufep := true } }
+      | _ => p
+    let k := n % 8
+    let b1 := encodePicBits i ++ List.replicate k false
+    let all := bitsToBytes (padToByte (b1 ++ encodePicBits p))
+    let j := b1.length / 8
+    let o := optsOf { flavour := fl } false
+    for d in [0:9] do
+      let sp := j + d - 3
+      if 0 < sp ∧ sp < all.length then
+        out := s!"P {o} a:{hex (all.take sp).toArray};n;a:{hex (all.drop sp).toArray};n;n" :: out
   pure out.reverse
 
 /-- hand-built stress streams for C01: zero sizes, 11-bit levels at high quantizers, more macroblock data than the picture
@@ -386,6 +415,7 @@ def runGen (kind : String) (seed count : Nat) : List String :=
   if kind == "stress" then (stressCases.run (seed * 2654435761 + 7)).1 else
   if kind == "esclevels" then escLevelCases else
   if kind == "bigconcat" then ((bigConcatCases count).run (seed * 2654435761 + 77)).1 else
+  if kind == "junction" then ((junctionCases count).run (seed * 2654435761 + 33)).1 else
   if kind == "edgeconcat" then ((edgeConcatCases count).run (seed * 2654435761 + 32)).1 else
   if kind == "edgesizes" then ((edgeSizeCases false count).run (seed * 2654435761 + 31)).1 else
   if kind == "edgesizespp" then ((edgeSizeCases true count).run (seed * 2654435761 + 31)).1 else
